@@ -374,6 +374,11 @@ pub fn scenario_address_rule(seed: u64, rep: &mut Report) {
 pub fn run(p: &Params) -> Report {
     let mut rep = Report::new("C12");
     if let Some(r) = &p.replay {
+        if super::sys::replay(r, &mut rep) {
+            return rep;
+        }
+    }
+    if let Some(r) = &p.replay {
         let seed: u64 = r["replay"]["scenario_seed"].as_str().unwrap().parse().unwrap();
         if r["replay"]["kind"] == "address-rule" {
             scenario_address_rule(seed, &mut rep);
@@ -393,6 +398,8 @@ pub fn run(p: &Params) -> Report {
         crate::util::guarded(&mut rep, seed, |rep| scenario_address_rule(seed, rep));
     }
     let _ = kb::log2;
+    // full stack: an unmodified Discv5 inside a simulated network, judged on the wire and the API
+    super::sys::run_mixed(p, super::sys::Focus::C12, 0x5C12_0000, 1600, 100000, &mut rep);
     rep
 }
 
